@@ -11,8 +11,10 @@ import (
 
 	"github.com/prometheus/common/promslog"
 	"github.com/prometheus/prometheus/model/labels"
+	"github.com/prometheus/prometheus/storage"
 	"github.com/prometheus/prometheus/tsdb"
 	"github.com/prometheus/prometheus/tsdb/record"
+	"github.com/prometheus/prometheus/tsdb/tombstones"
 	"github.com/prometheus/prometheus/tsdb/wlog"
 
 	"verifharness/internal/ev"
@@ -106,6 +108,13 @@ func TestDebugReplay(t *testing.T) {
 		}
 		sr.Close()
 	}
+	if tr, err := r.DB.Head().Tombstones(); err == nil {
+		tr.Iter(func(ref storage.SeriesRef, ivs tombstones.Intervals) error {
+			fmt.Printf("head tombstone ref %d: %v\n", ref, ivs)
+			return nil
+		})
+	}
+	fmt.Printf("head [%d,%d]\n", r.DB.Head().MinTime(), r.DB.Head().MaxTime())
 	for _, b := range r.DB.Blocks() {
 		bq, _ := tsdb.NewBlockQuerier(b, math.MinInt64, math.MaxInt64)
 		part, _ := tsdbrun.QuerySamples(bq, tsdbrun.Matchers(nil))
